@@ -162,11 +162,17 @@ def run(ctx):
                      sig=None, expected=sp, actual=im)
 
 # ---------- histories of add / remove ----------
-def impl_history(uris, ops, key):
+def impl_history(uris, ops, key, probes=()):
+    """probes: keys looked up (and tested for membership) before every operation of the history: a lookup is an
+    observation, it must not change what later lookups answer (no memo that outlives an add/remove)"""
     from ncclient.capabilities import Capabilities
     try:
         caps = Capabilities(uris)
         for o, u in ops:
+            for q in probes:
+                try: caps[q]
+                except KeyError: pass
+                q in caps
             (caps.add if o == 'add' else caps.remove)(u)
         c = caps[key]
         r = ('found', c.namespace_uri, sorted(c.parameters.items()))
@@ -208,6 +214,11 @@ def history_cases(ctx):
     for (uris, ops, key), mo in zip(cases, outs):
         case = {'uris': uris, 'ops': [list(o) for o in ops], 'key': key}
         im = impl_history(uris, ops, key); sp = spec_lookup(present_after(uris, ops), key)
+        qs = sorted(set([key] + [s for u in uris + [u for _, u in ops] for s in spec_shorthands(u.split('?')[0])] + [u for _, u in ops]))
+        im2 = impl_history(uris, ops, key, probes=qs)
+        if im2 != im:
+            ctx.fail(dict(case, probes=qs), 'looking keys up during the history %r on %r changes the final lookup of %r: %r without, %r with the earlier lookups'
+                     % (ops, uris, key, im, im2), sig=None, expected=im, actual=im2)
         ctx.count(case, nontrivial=True, key=['hist', uris, ops, key]); ctx.hist('history_outcome', im[0])
         if mo is not None and model_decode(mo) != im:
             ctx.disagree(case, model_decode(mo), im, 'Caps.caps_after/getitem vs Capabilities add/remove/__getitem__', theorem='C08_history')
